@@ -5,7 +5,7 @@ CONSTANTS
   Vals <- ValsQ
   Roots <- AllSorts
   Wraps <- AllWraps
-  Combos <- AllCombos
+  Combos <- QuickCombos
   Combos3 <- NoCombos
   MaxDepth = 2
   MaxNodes = 3
